@@ -131,6 +131,7 @@ type World struct {
 	scratch  string
 	Fork     *Fork
 	Gen      *Gen
+	PropOverride string
 	wallAdvanced int64
 }
 
@@ -147,6 +148,12 @@ func (w *World) EventLogHash() string {
 }
 
 func (w *World) Violate(prop, class, format string, a ...interface{}) {
+	if w.PropOverride != "" && prop != w.PropOverride {
+		// a borrowed monitor (e.g. the C08 retention model run on behalf of C16) reports under the
+		// property the check was asked about
+		class = w.PropOverride + "/via-" + class
+		prop = w.PropOverride
+	}
 	v := Violation{Property: prop, Class: class, Detail: fmt.Sprintf(format, a...), Block: w.BlockIdx, Tx: -1}
 	w.Viol = append(w.Viol, v)
 	w.Ev("VIOLATION %s %s %s", prop, class, v.Detail)
